@@ -895,7 +895,13 @@ class Process(StateMachine, persistence.Savable, metaclass=ProcessStateMachineMe
     @super_check
     def on_excepted(self) -> None:
         """Entered the EXCEPTED state."""
-        self._fire_event(ProcessListener.on_process_excepted, str(self.future().exception()))
+        exception = self.future().exception()
+        try:
+            reason = str(exception)
+        except Exception:
+            # An exception that cannot be turned into text must not replace the one the process failed with
+            reason = type(exception).__name__
+        self._fire_event(ProcessListener.on_process_excepted, reason)
 
     @super_check
     def on_kill(self, msg: Optional[MessageType]) -> None:
